@@ -15,6 +15,12 @@ from . import auxref, build, snapshot, tngrammar
 from .spec import schema
 
 
+def _ek(key):
+    """equality class of a set element / mapping key as Python sees it
+    (0.0 and -0.0 are one key; the key object itself is hashable)"""
+    return key
+
+
 def proto_version():
     return int(build.read_version_txt(build.repo_root())["VERSION_PROTOBUF"])
 
@@ -292,7 +298,7 @@ def _collapse(tree, jv):
         out, seen = [], set()
         for x in jv:
             x = _collapse(subs[0], x)
-            k = repr(auxgen.eqkey(subs[0], x))
+            k = _ek(auxgen.eqkey(subs[0], x))
             if k not in seen:
                 seen.add(k)
                 out.append(x)
@@ -301,7 +307,7 @@ def _collapse(tree, jv):
         order, vals = [], {}
         for k, v in jv:
             k = _collapse(subs[0], k)
-            kk = repr(auxgen.eqkey(subs[0], k))
+            kk = _ek(auxgen.eqkey(subs[0], k))
             if kk not in vals:
                 order.append((kk, k))
             vals[kk] = _collapse(subs[1], v)  # last value wins, first key object stays
